@@ -330,6 +330,8 @@ def run(ctx):
             ctx.broken.append("harness TestVerifC07 in %s did not complete (exit %d, %d/%d lines)" % (pkg, rc, len(impl), len(pops)))
             continue
         evaluations += len(pops)
+        impl = c.settle(ctx, "%s vs KM.PwCache" % what, pops, impl, pmodel,
+                        lambda: c.run_harness(ctx, pkg, "C07", pops, timeout=3000, tag="again-"))
         dis = c.diff_streams(ctx, "%s vs KM.PwCache" % what, pops, impl, pmodel)
         judged = c.run_driver(ctx, "judge", [o + " => " + a for o, a in zip(pops, impl)])
         short = pkg.split("/")[-1]
